@@ -1,7 +1,6 @@
 (* M2: executable model of the operations of src/food_system/food.py::Food and the label helpers of
    src/food_system/unit_conversions.py::UnitConversions, transliterated branch by branch from the code AS IT IS
-   (including odd behaviour: __getitem__ with an integer keeps the " each month" labels, the constructor appends
-   " each month" unconditionally for int placeholders, ...).  No proofs in this file.
+   (including odd behaviour).  No proofs in this file.
    Labels are the raw Python strings; the string operations are those of Base/StrUtil.v.
    Numbers are exact rationals.  Python exceptions are mapped to `Rejected kind`.
    `*_modelled` predicates delimit the inputs the model speaks about (mixed scalar/array garbage,
@@ -108,7 +107,7 @@ Definition num_scalar (n : num) : option Q :=
    None = 0-d array (a float next to a list of kcals) *)
 Definition ctor_side (n : nat) (x : num) (l : string) : option (list Q) * string :=
   match x with
-  | NInt _ => (Some (repeat 0 n), l ++ EACH)        (* unconditional append *)
+  | NInt _ => (Some (repeat 0 n), ctor_label true l)   (* zeros; " each month" appended unless present *)
   | NFloat _ => (None, ctor_label true l)
   | NList a => (Some a, ctor_label true l)
   end.
@@ -268,11 +267,11 @@ Definition py_slice {A} (l : list A) (a b : nat) : list A := firstn (b - a) (ski
 (* make_sure_is_a_list: the three nutrients are numpy arrays *)
 Definition sure_list (x : food) : result unit := guard (mon x) AssertRejected (Ok tt).
 
-(* x[i] : NOTE the labels are passed on unchanged (scalar result keeps " each month") *)
+(* x[i] : a single value; its labels are rewritten " each month" -> " per month" (set_units_from_list_to_element) *)
 Definition getitem_int (x : food) (i : Z) : result food :=
   bind (sure_list x) (fun _ => bind (validate x) (fun _ =>
   match fv x with
-  | Monthly k f p => bind (pick3 k f p i) (with_labels_of x)
+  | Monthly k f p => bind (pick3 k f p i) (fun v => bind (with_labels_of x v) set_l2e)
   | _ => Rejected AssertRejected
   end)).
 
@@ -431,7 +430,8 @@ Fixpoint run_ops (c : conv) (x : food) (os : list op) : result food :=
 Inductive pred :=
 | PEq | PNe | PNeverNeg
 | PAllGt | PAllLt | PAnyGt | PAnyLt | PAllGe | PAllLe | PAnyGe | PAnyLe
-| PAllZero | PAnyZero | PAllGtZero | PAnyGtZero | PAllGeZero.
+| PAllZero | PAnyZero | PAllGtZero | PAnyGtZero | PAllGeZero
+| PAllGeZeroThr (t : Q).      (* all_greater_than_or_equal_to_zero(threshold=t) : every counted value >= -t *)
 
 Definition pred_is_binary (p : pred) : bool :=
   match p with
@@ -530,6 +530,7 @@ Definition eval_pred (incf incp : bool) (pr : pred) (x y : food) : result bool :
   | PAllGtZero => bind val (fun _ => Ok (un3 (all3 incf incp) (@forallb Q) (Qlt_bool 0) x))
   | PAnyGtZero => bind val (fun _ => Ok (un3 (any3i incf incp) (@existsb Q) (Qlt_bool 0) x))
   | PAllGeZero => bind val (fun _ => Ok (un3 (all3 incf incp) (@forallb Q) (Qle_bool 0) x))
+  | PAllGeZeroThr t => bind val (fun _ => Ok (un3 (all3 incf incp) (@forallb Q) (Qle_bool (- t)) x))
   end.
 
 (* shapes on which the numpy comparison is elementwise (no broadcasting / no python-level errors) *)
